@@ -13,6 +13,7 @@ REGISTRY = {
     "C13": "statecache",
     "C14": "hashstream",
     "C15": "addpipeline",
+    "C16": "addpipeline",
     "C17": "lazyindex",
     "C18": "storagemap",
     "C19": "treemerge",
